@@ -73,10 +73,25 @@ package db19
 //@ spec rsT(st *stor.Stor, off uint64) int64
 //@ spec rsSchema(st *stor.Stor, off uint64) uint64
 //@ spec rsInfo(st *stor.Stor, off uint64) uint64
+// The bytes of a state record (36 bytes: magic1, time, two 5 byte offsets, checksum, magic2) as readState sees
+// them: stByte(st, off, j) is byte j after offset off in its chunk, stAvail what is left of the chunk there.
+//@ spec stAvail(st *stor.Stor, off uint64) int = len(cks(st)[off >> uint64(st.shift)]) - int(off & (st.chunksize - 1))
+//@ spec stByte(st *stor.Stor, off uint64, j int) byte = cks(st)[off >> uint64(st.shift)][int(off & (st.chunksize - 1)) + j]
+//@ spec isMagic1(st *stor.Stor, off uint64) bool = stByte(st, off, 0) == 1 && stByte(st, off, 1) == 35 && stByte(st, off, 2) == 69 && stByte(st, off, 3) == 103 && stByte(st, off, 4) == 137 && stByte(st, off, 5) == 171 && stByte(st, off, 6) == 205 && stByte(st, off, 7) == 239
+//@ spec isMagic2(st *stor.Stor, off uint64) bool = stByte(st, off, 28) == 254 && stByte(st, off, 29) == 220 && stByte(st, off, 30) == 186 && stByte(st, off, 31) == 152 && stByte(st, off, 32) == 118 && stByte(st, off, 33) == 84 && stByte(st, off, 34) == 50 && stByte(st, off, 35) == 16
+//@ spec stSmallOff(st *stor.Stor, off uint64, j int) uint64 = uint64(stByte(st, off, j)) + 256 * uint64(stByte(st, off, j + 1)) + 65536 * uint64(stByte(st, off, j + 2)) + 16777216 * uint64(stByte(st, off, j + 3)) + 4294967296 * uint64(stByte(st, off, j + 4))
+//@ spec stTime(st *stor.Stor, off uint64) uint64 = uint64(stByte(st, off, 8)) * 72057594037927936 + uint64(stByte(st, off, 9)) * 281474976710656 + uint64(stByte(st, off, 10)) * 1099511627776 + uint64(stByte(st, off, 11)) * 4294967296 + uint64(stByte(st, off, 12)) * 16777216 + uint64(stByte(st, off, 13)) * 65536 + uint64(stByte(st, off, 14)) * 256 + uint64(stByte(st, off, 15))
+// readState: never reads beyond the end of the chunk (a record cut off by the end of the file is "no state",
+// not a fault: repair and history scan for the marker and may find it anywhere); accepts exactly what is
+// there when the two markers match, the checksum holds (it panics otherwise - its callers recover) and the
+// metadata offsets lie below the record; all index and slice expressions in range (safety obligations on).
 //@ func readState(st, off) (offSchema, offInfo, t)
-//@   nosafety
+//@   mode bv
 //@   maypanic
+//@   requires st != nil && storShape(st) && int(off >> uint64(st.shift)) < len(cks(st)) && (off & (st.chunksize - 1)) <= uint64(len(cks(st)[off >> uint64(st.shift)]))
 //@   ensures! refs_below: t != 0 ==> offSchema < off && offInfo < off
+//@   ensures! rejects_cut_off: stAvail(st, off) < stateLen ==> t == 0
+//@   ensures! accepts_valid: stAvail(st, off) >= stateLen && isMagic1(st, off) && isMagic2(st, off) && stSmallOff(st, off, 16) < off && stSmallOff(st, off, 21) < off ==> t == int64(stTime(st, off)) && offSchema == stSmallOff(st, off, 16) && offInfo == stSmallOff(st, off, 21)
 //@   defines t == rsT(st, off) && offSchema == rsSchema(st, off) && offInfo == rsInfo(st, off)
 
 // stateAsof: the state that is shown is a valid persisted state, its Off is the offset that state was
@@ -129,6 +144,17 @@ package db19
 //@ func (s *scanner) close()
 //@   assumed
 //@   pure
+// The scanner goroutine (nothing recovers a panic there: it would take the whole process down instead of letting
+// repair fall back to an older state): on a store mapped exactly up to the end of the file (every chunk full
+// but the last) whose size does not exceed what is mapped, every index and slice expression is in range - in
+// particular a state marker found less than a state record before the end of the file is skipped, not read -
+// and only offsets where LastOffset found the marker, in descending order, are handed out.
+//@ func (s *scanner) scanner(store)
+//@   mode bv
+//@   requires s != nil && store != nil && storMappedP(store) && store.size.v <= extent(store) && store.shift >= 6
+//@   modifies all
+//@   loop 0 invariant off <= extent(store) && storMappedP(store)
+//@   loop 0 decreases off
 //@ func (r *repair) check(i, off) (state)
 //@   assumed
 //@   modifies r.ec
